@@ -706,4 +706,18 @@ def sectionTotal (members : List Merchant) : E Val := pySum (members.map (·.tot
 
 def members {α : Type} (r : List (String × List α)) (name : String) : List α := (r.lookup name).getD []
 
+/-! ### the views in the HTML report's data (`report.write_summary_file_vue`) -/
+
+/-- `for name, data in stats['sections'].items(): if not merchants: continue; sections[id(name)] = {'title': name,
+'merchants': …}` - a Python dict keyed by an id derived from the view's NAME.  `idOf` is that id function, an
+external parameter (as pinned: `name.lower().replace(' ', '_')`; the harness observes it on the real report).
+An entry is (id, (title, merchants)); a later view with the same id takes the earlier one's place. -/
+def htmlSections {α : Type} (idOf : String → String) (r : List (String × List α)) :
+    List (String × (String × List α)) :=
+  r.foldl (fun d p => if p.2.isEmpty then d else setKey (idOf p.1) (p.1, p.2) d) []
+
+/-- the merchants the data lists under the entry titled `title` (none if there is no such entry) -/
+def htmlMembers {α : Type} (h : List (String × (String × List α))) (title : String) : List α :=
+  ((h.map (·.2)).lookup title).getD []
+
 end TallyVerif.View
